@@ -142,6 +142,17 @@ def scenarios(tier: str):
     if tier == 'quick':
         out = [s for s in out if 'quick' in s.tags]
     else:
+        # thorough: two-step scenarios - every ordered pair (first, second) of a list of operations from the mixed pre-state; the first
+        # completes through the same handle (cached pack id, open session), the crash / fault hits the second
+        pair_ops = [('add', N), ('add', 1), ('pack', 'NO', False, True), ('pack', 'YES', True, True), ('clean', False),
+                    ('topack', (N, 1, 0), False, False, True), ('topack', (1, N), True, True, False), ('delete', (1, 3)), ('repack', 'KEEP'),
+                    ('repack', 'YES'), ('loosen', 3), ('import', (N, 0, 2), False, 13, 'other'), ('reopen',)]
+        for a in pair_ops:
+            for b in pair_ops:
+                if b[0] == 'reopen':
+                    continue
+                name = f'pair-{a[0]}{"-" + str(a[1]) if len(a) > 1 else ""}-then-{b[0]}{"-" + str(b[1]) if len(b) > 1 else ""}'
+                out.append(Scenario(f'{name}@mixed', PRE['mixed'] + [a], b, universe=universe5(), tags=('pair',)))
         # thorough: every scenario additionally under other configurations (flat loose folder + sha1; one big pack)
         extra = []
         for cfg_name, cfg in (('p0-sha1', {'loose_prefix_len': 0, 'hash_type': 'sha1'}), ('bigpack-zlib9', {'pack_size_target': 4 * 1024 ** 3, 'compression_algorithm': 'zlib+9'}),
